@@ -2,8 +2,8 @@ SPECIFICATION Spec
 CONSTANTS
   Quirks = {}
   RQuirks = {}
-  KindNames = {"T", "B", "D3", "P", "Pu", "O", "Z", "ZD", "W"}
-  Strats = {"simple", "basic", "append_rev"}
-  MaxOps = 6
+  KindNames = {"T", "D3", "Pu", "O", "Z", "ZD", "W"}
+  Strats = {"simple", "basic"}
+  MaxOps = 5
 INVARIANTS LayoutOk NoGuardViolation Link DestroyedAtMostOnce LedgerConsistent NothingLeakedAtQuiescence FitsPublishedCapacity
 CHECK_DEADLOCK FALSE
